@@ -1,4 +1,5 @@
 import MpsVerif.Proofs.IterQueueInv
+import MpsVerif.Proofs.IterQueueTime
 /-!
 # C17 — IterableQueue delivers every item once and every consumer finishes
 
@@ -88,6 +89,82 @@ theorem C17_renew_enabled (c : Cfg) (hm : 1 ≤ c.m) (hn : 1 ≤ c.n) (s : State
   cases h2 : step c { s with rpc := .get, rt0 := s.now, rtw := s.now } .rGet with
   | some s2 => exact ⟨_, _, h1, h2⟩
   | none => simp [step, hq, hu] at h2
+
+/-- **Stop is answered within one wait interval.**  Let a stop have been requested at clock `ts`.
+    (1) Whoever is still inside a blocking `get`/`put` (consumer, supplier, or `renew`) has been
+    there for at most one wait interval `w` counted from the later of the stop request and the
+    start `t0` of that operation.  (2) When such an actor's bounded wait has expired and the
+    operation still cannot succeed, raising `StopRequested` is its only move (`cStop`/`sStop` is
+    enabled, a further retry is not) and the clock does not advance before it has moved
+    (zero scheduling latency, see the model header).  (3) `StopRequested` is raised only after a
+    stop request. -/
+theorem C17_stop_responsive (c : Cfg) (s : State) (hr : Reachable c s) :
+    (∀ ts, s.stop = some ts →
+      (∀ (j : Nat) (a : Con), s.cons[j]? = some a → a.pc.waiting = true →
+          s.now ≤ a.t0 + c.w ∨ s.now ≤ ts + c.w) ∧
+      (∀ (i : Nat) (a : Sup), s.sups[i]? = some a → a.pc.waiting = true →
+          s.now ≤ a.t0 + c.w ∨ s.now ≤ ts + c.w) ∧
+      (s.rpc = .get → s.now ≤ s.rt0 + c.w ∨ s.now ≤ ts + c.w) ∧
+      (∀ (j : Nat) (a : Con), s.cons[j]? = some a → a.pc.waiting = true → cBlocked c s a.pc = true →
+          a.tw + c.w ≤ s.now →
+          step c s (.cStop j) = some { s with cons := s.cons.set j { a with pc := .stopped } } ∧
+          step c s (.cRetry j) = none ∧ step c s .tick = none) ∧
+      (∀ (i : Nat) (a : Sup), s.sups[i]? = some a → a.pc.waiting = true → room c s = false →
+          a.tw + c.w ≤ s.now →
+          (step c s (.sStop i)).isSome = true ∧ step c s (.sRetry i) = none ∧ step c s .tick = none)) ∧
+    (s.stop = none →
+      (∀ a ∈ s.cons, a.pc ≠ .stopped) ∧ (∀ a ∈ s.sups, a.pc ≠ .stoppedP ∧ a.pc ≠ .stoppedE) ∧
+      s.rpc ≠ .stopped) := by
+  have hi := tinv_reachable c hr
+  refine ⟨?_, ?_⟩
+  · intro ts hstop
+    have bound : ∀ t0 tw, WaitOk c.w s.now s.stop t0 tw → s.now ≤ t0 + c.w ∨ s.now ≤ ts + c.w := by
+      intro t0 tw ho
+      rcases ho.h4 with h | h
+      · left; have := ho.h3; omega
+      · right; have := h ts hstop; have := ho.h3; omega
+    refine ⟨fun j a h hw => bound _ _ (hi.con j a h hw), fun i a h hw => bound _ _ (hi.sup i a h hw),
+            fun h => bound _ _ (hi.ren h), ?_, ?_⟩
+    · intro j a h hw hb hdue
+      refine ⟨by simp [step, h, hw, hb, hdue, hstop], by simp [step, h, hstop], ?_⟩
+      cases hnd : noneDue c s with
+      | false => simp [step, hnd]
+      | true =>
+        exfalso
+        simp only [noneDue, Bool.and_eq_true, List.all_eq_true, Bool.or_eq_true, Bool.not_eq_true',
+          decide_eq_true_eq] at hnd
+        rcases hnd.1.2 a (mem_of_getElem? h) with h5 | h5
+        · rw [h5] at hw; cases hw
+        · omega
+    · intro i a h hw hroom hdue
+      refine ⟨by simp [step, h, hw, hroom, hdue, hstop], by simp [step, h, hstop], ?_⟩
+      cases hnd : noneDue c s with
+      | false => simp [step, hnd]
+      | true =>
+        exfalso
+        simp only [noneDue, Bool.and_eq_true, List.all_eq_true, Bool.or_eq_true, Bool.not_eq_true',
+          decide_eq_true_eq] at hnd
+        rcases hnd.1.1 a (mem_of_getElem? h) with h5 | h5
+        · rw [h5] at hw; cases hw
+        · omega
+  · intro hnone
+    refine ⟨?_, ?_, ?_⟩
+    · intro a ha hp
+      obtain ⟨j, hj⟩ := List.mem_iff_getElem?.mp ha
+      exact hi.cstopped j a hj hp hnone
+    · intro a ha
+      obtain ⟨i, hi2⟩ := List.mem_iff_getElem?.mp ha
+      exact ⟨fun hp => hi.sstopped i a hi2 (Or.inl hp) hnone, fun hp => hi.sstopped i a hi2 (Or.inr hp) hnone⟩
+    · intro hp; exact hi.rstopped hp hnone
+
+/-- non-vacuity of `C17_stop_responsive`: a consumer blocked on an empty queue since clock 0, stop
+    requested at clock 2 (after two expired waits and retries); at clock 3 it raises `StopRequested`,
+    i.e. exactly one wait interval after the request -/
+example :
+    let c : Cfg := { m := 1, n := 1, cap := 0, w := 1 }
+    ∃ s, Reachable c s ∧ s.stop = some 2 ∧ s.now = 3 ∧ (s.cons.map (·.pc)) = [.stopped] := by
+  refine ⟨_, ⟨[.cChk1 0, .tick, .cRetry 0, .tick, .cRetry 0, .setStop, .tick, .cStop 0], rfl⟩, ?_⟩
+  decide
 
 /-- non-vacuity: two suppliers, two consumers; both consumers meet at the token hand-over (the
     F14 window), the round ends with exactly one marker, `renew`, and a second round delivers its
